@@ -71,6 +71,8 @@ def key_of(prop, e):
     if prop == "C38":
         return slug("%s/%s/%s" % (e["era"], e["rule"] or "unlabelled", mut))
     extra = ""
+    if prop == "C35" and mut.startswith("extra-"):
+        mut = "extra-witness-with-invalid-signature"     # whatever the position and the number of valid ones
     if prop == "C34" and e["T"].get("redeemOnly"):
         extra = "/redeem-only"
     if prop == "C36":
@@ -114,46 +116,58 @@ def renumber(events):
 
 
 def validate(ctx, prop, events, tag):
-    """TLC decides the trace; every stall is a finding (triaged by key), then the
-    remaining events are re-validated. Returns the number of events TLC matched."""
+    """TLC decides the trace; every stall is a finding (triaged by key), then the remaining
+    events are re-validated (in windows, so that a tree with many defects stays affordable).
+    Returns the number of events TLC matched."""
     cfg = "TracePhase1_%s.cfg" % prop
     matched_total = 0
     rounds = 0
-    cur = renumber(events)
-    while cur:
+    todo = list(events)           # events not yet decided
+    window = len(todo)            # first attempt: the whole trace in one TLC run
+    seen_keys = set()
+    while todo:
         rounds += 1
-        if rounds > MAX_ROUNDS:
-            raise vlib.ToolError("more than %d distinct findings in one trace - giving up" % MAX_ROUNDS)
+        if rounds > 4 * MAX_ROUNDS:
+            raise vlib.ToolError("too many validation rounds - giving up")
+        chunk = todo[:window]
+        if chunk[0]["ev"] != "base":
+            raise vlib.ToolError("trace window does not start with a baseline event")
         path = ctx.path("%s_%d.ndjson" % (tag, rounds))
-        vlib.write_ndjson(path, cur)
+        vlib.write_ndjson(path, renumber(chunk))
         ok, matched, total, first = ctx.tlc_trace("ledger", "TracePhase1", cfg, path, timeout=1500)
         matched_total += matched
         if ok:
-            break
-        e = first
-        if e["ev"] == "base":
-            # an accepted, unmodified mainnet fixture fails the property's demand
-            key = slug("%s/baseline/%s" % (e["era"], e["fx"]))
+            todo = todo[len(chunk):]
         else:
-            key = key_of(prop, e)
-        if prop == "C38" and e["verdict"] == "reject":
-            raise vlib.ToolError("mutator %s of %s did not break rule %s according to the independent projection" % (e["mut"], e["fx"], e["rule"]))
-        ctx.report(key, describe(prop, e), payload={"event": e})
-        # drop the validated prefix and every event with the same key; keep the baseline of the current fixture
-        rest = cur[matched + 1:]
-        base = None
-        for x in reversed(cur[:matched + 1]):
-            if x["ev"] == "base" and x is not cur[matched]:
-                base = x
-                break
-        if e["ev"] == "base":
-            rest = [x for x in rest if x["fx"] != e["fx"]]
-            base = None
-        else:
-            rest = [x for x in rest if x["ev"] == "base" or key_of(prop, x) != key]
-        if base is not None and rest and rest[0]["ev"] != "base":
-            rest = [base] + rest
-        cur = renumber(rest)
+            e = chunk[matched]
+            if e["ev"] == "base":
+                # an accepted, unmodified mainnet fixture fails the property's demand
+                key = slug("%s/baseline/%s" % (e["era"], e["fx"]))
+            else:
+                key = key_of(prop, e)
+            if prop == "C38" and e["verdict"] == "reject":
+                raise vlib.ToolError("mutator %s of %s did not break rule %s according to the independent projection" % (e["mut"], e["fx"], e["rule"]))
+            ctx.report(key, describe(prop, e), payload={"event": e})
+            seen_keys.add(key)
+            if len(seen_keys) > MAX_ROUNDS:
+                raise vlib.ToolError("more than %d distinct findings in one trace - giving up" % MAX_ROUNDS)
+            # drop the decided prefix and every later event with an already reported key
+            rest = todo[matched + 1:]
+            if e["ev"] == "base":
+                rest = [x for x in rest if x["fx"] != e["fx"]]
+            else:
+                rest = [x for x in rest if x["ev"] == "base" or key_of(prop, x) not in seen_keys]
+                base = next((x for x in reversed(chunk[:matched]) if x["ev"] == "base"), None)
+                if rest and rest[0]["ev"] != "base" and base is not None:
+                    rest = [base] + rest
+            todo = rest
+            window = 250
+        # a window must not end between a baseline and its mutants' continuation: re-insert the baseline
+        if todo and todo[0]["ev"] != "base":
+            base = next((x for x in reversed(chunk) if x["ev"] == "base"), None)
+            if base is None:
+                raise vlib.ToolError("lost the baseline of the current fixture")
+            todo = [base] + todo
     return matched_total
 
 
@@ -178,7 +192,7 @@ def selftest(ctx, prop, events):
         if e["verdict"] != "accept":
             return False
         if prop == "C34":
-            return not T["special"] and T["outs"]
+            return not T["special"] and T["outs"] and T["era"] != "byron"   # Byron's demand is an inequality
         if prop == "C35":
             return bool(T["wits"])
         if prop == "C37":
